@@ -2,7 +2,7 @@
    chains and loops included), and the only error classes a decoder can produce are
    EStruct (struct.error), EAce (outside the modelled IDNA fragment) and, from the pack()
    call inside decompress_from_record_data, EValue / EUnicode. *)
-From Coq Require Import List Bool Arith NArith Lia.
+From Coq Require Import List Bool Arith NArith ZArith Lia.
 From MV Require Import Base.Bytes Model.DnsNames Model.DnsMessage.
 Import ListNotations.
 
@@ -328,7 +328,7 @@ Proof.
   pose proof (decompress_facts buf off end_data c He Hc) as (R & P).
   unfold decompress_from_record_data in *.
   destruct (decompress_loop_plain buf off end_data c (firstn (end_data - off) (skipn off buf)) Hn
-              (S (length buf)) 0 0) as (r & Er & Hr).
+              (S (length buf)) 0 0%Z) as (r & Er & Hr).
   rewrite Er in *. cbn [fst snd] in *.
   destruct Hr as [->|[->| ->]]; [exact P| |]; unfold decode_err in R;
     destruct R as [R|[R|[R|R]]]; discriminate.
